@@ -54,8 +54,10 @@ def main():
     modname = "checks." + os.path.basename(cands[0])[:-3]
     try:
         mod = importlib.import_module(modname)
-    except core.HarnessError as ex:
-        print("harness error (calibration): %s" % ex, file=sys.stderr)
+    except BaseException as ex:  # calibration failure or import error: never a VIOLATION
+        import traceback
+        traceback.print_exc()
+        print("harness error (import/calibration of %s): %r" % (modname, ex), file=sys.stderr)
         return 2
 
     if args.replay:
